@@ -17,11 +17,29 @@ CLAIMS = {
         "Static necessary conditions of the update rule, decided for every path/call site of the current tree: (1) no in-place write can reach a state tensor outside that state's own recurrence (this is how the SGD-grafting corruption of the gradient EMA was found); (2) the stages of one group step are ordered by their data dependences and one direction list flows through them, scaled by -lr and applied last; (3) the refresh predicate equals the documented schedule on the post-increment group step and the amortized computation runs only under it; (4) the group step counter is incremented exactly once by 1 and registered per group in optimizer state; (5) per-step hyperparameters are read from the loop's param group and reach the matching formal. NOT decided: the arithmetic of each recurrence (coefficients, exponents, bias-correction terms, contraction indices).",
         "Trusts the torch operation table in sv/tables.py (in-place / view / maybe-copy / fresh); points-to is a may-analysis (k=1 call strings quick, k=2 thorough) and can only err towards reporting.",
     ),
+    "C02": (
+        "DESIGN.md §3 C02",
+        "first-match evaluation of the grafting dispatch with symbolic payload interpretation, region-exhaustive evaluation of the phase-switch predicate, def-use / dominance analysis of the norm-transfer code",
+        "Static: each grafting config class maps to the documented (list class, beta2, epsilon, bias-correction) payload and unknown classes raise; use_grafting_method equals (incremented step < start and grafting configured); both methods precondition the same input, the Shampoo result is rescaled in place by norm(graft)/(norm(shampoo)+tiny) with the roles in that order, only after warm-up, and the grafting accumulator is updated whenever grafting is configured. NOT decided: equality of trajectories with torch.optim.* and exact norm equality (numerical), and the arithmetic inside the diagonal preconditioner.",
+        "Trusts Python/torch semantics of the foreach norm/div/mul primitives.",
+    ),
+    "C03": (
+        "DESIGN.md §3 C03",
+        "dominance / guard-agreement analysis of the SOAP list (refresh-then-accumulate, rotate/divide/rotate-back pairing), who-may-write (points-to) for basis and accumulator, dtype-tag flow over allocations, rotation and QR paths, exactness of the diagonal flag",
+        "Static: the basis refresh precedes the (unconditional) corrected-eigenvalue update; precondition() rotates, divides and rotates back with the same basis, selector and guard and the transposed contraction, under the same basis-exists predicate as the accumulator update; ignored dims are only permuted; the basis is refreshed only under the schedule flag and written only by its refresh; factors are allocated in the preconditioner dtype and everything contracted with gradients in the parameter dtype, and every same-dtype operation on the QR path has equal dtype tags (the rule that found the QR dtype defect); the diagonal flag is exact. NOT decided: orthonormality, diagonalisation, that QR yields the orthogonal-iteration update (numerical).",
+        "Trusts the same-dtype operation table (matmul, tensordot, einsum ...) and the torch operation table.",
+    ),
     "C04": (
         "DESIGN.md §3 C04",
         "index-space typing (units-of-measure inference over all per-block lists, selectors and indices) + mask-completeness / guard-agreement checks + CFG path queries",
         "Static, for every gradient-presence history at once: all per-block lists are typed by index space (global / local / global-masked / local-masked) from five seeds, and every compress_list, zip, multi-list foreach, list-class constructor and index use must combine one space; every masked list of every owner is re-derived from its unmasked twin with the right selector under a guard that agrees with the list's existence, and the re-mask is skipped only when the remembered selector is current; in-place writes on the step path hit masked or fresh lists only; an empty masked gradient list skips the group before the step counter; the gradient selector gets an entry for every block on every path. NOT decided: bit-for-bit equality of untouched tensors (follows from these facts plus torch semantics).",
         "Trusts the five typing seeds listed in sv/spaces.py and the torch operation table; name prefixes are used only as a contradiction check against inferred spaces.",
+    ),
+    "C05": (
+        "DESIGN.md §3 C05",
+        "points-to with strict polarity (blocks must alias parameter storage through view-only operations), call-site agreement of the parameter and gradient blocking recipes, who-may-write for parameters, structural check of multi_dim_split / compress_list",
+        "Static: every parameter block of every distributor aliases exactly the parameter storage (a maybe-copy op such as reshape/contiguous/clone on the chain is reported), gradient blocks alias the gradients, gradients are viewed with the stored merged dims and split with the same size expression, parameters are written in place only by update_params, multi_dim_split is a single fold over every dimension with torch.split as the only producer and no early exit, compress_list is an order-preserving selection. NOT decided: merge_small_dims arithmetic, exact-once coverage, row-major order, the size bound, and the invariance 'optimising blocks = optimising separate parameters'.",
+        "Trusts the torch view / maybe-copy operation table.",
     ),
     "C06": (
         "DESIGN.md §3 C06",
@@ -41,6 +59,24 @@ CLAIMS = {
         "Static agreement conditions: parameters, gradients and block infos are filtered by one and the same predicate of the parameter's local shard (so sequences stay aligned when a gradient is absent) and block infos zip strictly with the per-parameter block counts; an absent DTensor gradient yields None; the FullyShard and HybridShard copies agree; for HybridShard the collective-uniformity, gather-protocol, index-space and re-mask rules of C06 are instantiated (rank starvation reported as a known finding). NOT decided: numerical equality with the serial optimizer.",
         "Same trusted base as C06.",
     ),
+    "C09": (
+        "DESIGN.md §3 C09",
+        "cross-step def-use over the step path (everything assigned or written in place must be state reachable from self.state or a listed derived cache), points-to reachability of allocations from self.state, error-discipline analysis of the load path, writer/reader key-set agreement",
+        "Static: every attribute / slot assigned on the step path is a listed derived cache (each with a reason), every in-place write hits saved state, parameters, gradients, communication buffers or fresh tensors, every allocate_zeros_tensor result is reachable from self.state, the step counter is registered per group inside the group loop, missing keys raise on the load path, loops over the current state are never left early, leaf-less entries are not required, the group key is the sorted parameter names and all group fields are saved and restored. The silent skip of missing nested keys in OptimizerModule.load_state_dict is reported and listed as a known finding. NOT decided: bit-for-bit trajectory equality after resume.",
+        "The consecutive-failure counter of C13 is deliberately not checkpointed (fault sequences are outside C09's quantifier): recorded as an assumption.",
+    ),
+    "C10": (
+        "DESIGN.md §3 C10",
+        "dispatch-table evaluation of matrix_inverse_root with argument/field forwarding checks, interpretation of the convergence-flag expressions, dominance analysis of the higher-order solver's guards, def-use discipline of the regularised input",
+        "Static control-structure conditions only (the weakest claimed property): each config class reaches exactly one solver arm forwarding A, root (numerator only under a denominator == 1 check), epsilon and the config fields; fast paths come first; CONVERGED is produced only by an expression that holds iff the last |M-I| residual <= tolerance; the higher-order residual guard is recomputed unconditionally from the returned X and, with the NaN/Inf guard, dominates the return; the tf32 flag is restored in finally; after the ridge matrix is formed the raw input is not read again; the diagonal flag is exact. NOT decided: every accuracy bound, agreement of fast paths with the general path.",
+        "Accuracy is numerical and out of reach of this technique family.",
+    ),
+    "C11": (
+        "DESIGN.md §3 C11",
+        "dominance analysis of shape / root guards over every solver call, scalar-shadow interpretation of the eigenvalue update on a grid covering every linear piece, try/except shape analysis of the double-precision retry",
+        "Static: non-2-D and non-square inputs with more than one element are rejected on every path to any solver (including the diagonal fast path); the positive-root guard dominates the power; on both enhance_stability branches every eigenvalue becomes lambda - min(lambda_min, 0) + epsilon before the power (the mechanism that keeps powered values >= epsilon > 0), with lambda_min taken from the same eigenvalues; a decomposition failure is retried in double precision only under the flag and a non-float64 dtype, otherwise re-raised. NOT decided: finiteness, symmetry, the eigenvalue bound, commutation, equivariance (numerical).",
+        "The scalar shadow abstracts the elementwise tensor update of the eigenvalue vector by the same update on one eigenvalue.",
+    ),
     "C13": (
         "DESIGN.md §3 C13",
         "try/except shape + dominance analysis on the CFG of both _amortized_computation copies, dtype-provenance of the value tested for finiteness, exhaustive interpretation of the tolerance-counter routine, write-through rule on subscript stores into masked lists (index-space typing)",
@@ -58,6 +94,12 @@ CLAIMS = {
         "points-to view-only derivation (strict polarity) of the recovered blocks, CFG/AST guard structure of the recursive helper, sibling differ FSDP~HSDP",
         "Static: every block returned by split-tensor-block recovery shares storage with the given shard (only narrow/view on the path, through the recursion), pieces are concatenated left+center+right, a non-flat shard raises first, an empty range yields no blocks, the last dimension returns the block, the outer routine returns only the helper's result, every recursive call increases `dimension`, the whole-block descent is taken only under strict start > end, and the two copies agree. NOT decided: that the pieces partition the range into slabs of the stated form and are minimal in number (integer arithmetic over all shapes and ranges).",
         "Trusts the torch view-operation table (narrow, view are views; reshape/clone/indexing are not).",
+    ),
+    "C16": (
+        "DESIGN.md §3 C16",
+        "codec-pairing check (json.dumps of the whole key path / json.loads + parent walk), ordered isinstance kind-table extraction and comparison between writers and readers, in-place-load and keyed-lookup agreement analysis",
+        "Static: the flat key is json.dumps(parent_keys + [key]) (hand-rolled / concatenated keys are reported), unflatten parses it with json.loads, walks all parents and stores the leaf; the writer and reader kind tables of state_dict/load_state_dict and of the checkpoint helpers agree with no shadowing; loading copies into the old tensors, returns the old objects and looks sequences / dicts up by the writer's keys (position / key); state_dict walks self.__dict__ and recurses into every container kind; leaf-less sub-dictionaries are dropped by the writer and not required by the reader. NOT decided: injectivity for all key values beyond JSON's semantics, value equality after load.",
+        "Trusts JSON list encoding being injective on str/int keys and json.loads being its inverse.",
     ),
     "C17": (
         "DESIGN.md §3 C17",
